@@ -6,6 +6,7 @@ import (
 	"fmt"
 	"io"
 	"net"
+	"slices"
 	"time"
 
 	"github.com/quic-go/quic-go"
@@ -793,12 +794,15 @@ func (s *Server) handleRPCFormContract(stream net.Conn) error {
 	} else if err != nil {
 		return fmt.Errorf("failed to fund transaction: %w", err)
 	}
+	// only the inputs the wallet just added are ours to release: the renter's
+	// inputs may name outputs of this wallet that are reserved for something else
+	reserved := slices.Clone(formationTxn.SiacoinInputs[len(req.RenterInputs):])
 	defer func() {
 		if broadcast {
 			return
 		}
 		// release the inputs if the transaction is not going to be broadcast
-		s.wallet.ReleaseInputs(nil, []types.V2Transaction{formationTxn})
+		s.wallet.ReleaseInputs(nil, []types.V2Transaction{{SiacoinInputs: reserved}})
 	}()
 	// sign the transaction inputs
 	s.wallet.SignV2Inputs(&formationTxn, toSign)
@@ -961,12 +965,15 @@ func (s *Server) handleRPCRefreshContract(stream net.Conn, partial bool) error {
 	} else if err != nil {
 		return fmt.Errorf("failed to fund transaction: %w", err)
 	}
+	// only the inputs the wallet just added are ours to release: the renter's
+	// inputs may name outputs of this wallet that are reserved for something else
+	reserved := slices.Clone(renewalTxn.SiacoinInputs[len(req.RenterInputs):])
 	defer func() {
 		if broadcast {
 			return
 		}
 		// release the locked UTXOs if the transaction is not going to be broadcast
-		s.wallet.ReleaseInputs(nil, []types.V2Transaction{renewalTxn})
+		s.wallet.ReleaseInputs(nil, []types.V2Transaction{{SiacoinInputs: reserved}})
 	}()
 
 	// update renter inputs to reflect our chain state
@@ -1144,12 +1151,15 @@ func (s *Server) handleRPCRenewContract(stream net.Conn) error {
 	} else if err != nil {
 		return fmt.Errorf("failed to fund transaction: %w", err)
 	}
+	// only the inputs the wallet just added are ours to release: the renter's
+	// inputs may name outputs of this wallet that are reserved for something else
+	reserved := slices.Clone(renewalTxn.SiacoinInputs[len(req.RenterInputs):])
 	defer func() {
 		if broadcast {
 			return
 		}
 		// release the locked UTXOs if the transaction is not going to be broadcast
-		s.wallet.ReleaseInputs(nil, []types.V2Transaction{renewalTxn})
+		s.wallet.ReleaseInputs(nil, []types.V2Transaction{{SiacoinInputs: reserved}})
 	}()
 
 	// update renter inputs to reflect our chain state
